@@ -431,77 +431,33 @@ class BinReadFile(object):
         return False
 
 
-class TextWriteFile(object):
-    def __init__(self, path, mode):
+class TextWriteFile(io.StringIO):
+    """Text file opened for writing: content is stored in the virtual file system on close."""
+    def __init__(self, path, mode, newline=None):
+        io.StringIO.__init__(self, newline=newline)
         self.path = str(path)
-        self.pieces = []
-        self.rows = None
         e = _FS.get(path)
         if 'a' in mode and e is not None:
-            self.pieces = [e.text]
+            self.write(e.text)
         _write_entry(self.path, Entry('text', text=''))
 
-    def write(self, s):
-        self.pieces.append(s)
-        return len(s) if isinstance(s, str) else 1
-
     def close(self):
-        _FS.entries[self.path] = Entry('text', text=_join(self.pieces))
-
-    def flush(self):
-        pass
-
-    def __enter__(self):
-        return self
+        if not self.closed:
+            _FS.entries[self.path] = Entry('text', text=self.getvalue())
+        io.StringIO.close(self)
 
     def __exit__(self, *a):
         self.close()
         return False
 
 
-def _join(pieces):
-    if _b.all(isinstance(p, str) for p in pieces):
-        return ''.join(pieces)
-    from .symtext import SymText
-    return SymText.join(pieces)
-
-
-class TextReadFile(object):
-    def __init__(self, path):
-        e = _FS.get(path)
-        if e is None:
-            raise FileNotFoundError("[Errno 2] No such file or directory: '%s'" % path)
-        if e.kind != 'text':
-            raise Inconclusive('text read of non-text file %s' % path)
-        self.text = e.text
-        self.pos = 0
-
-    def read(self, n=-1):
-        assert n == -1 and self.pos == 0
-        self.pos = None
-        return self.text
-
-    def readline(self):
-        lines = self.lines()
-        return lines[0] if lines else ''
-
-    def lines(self):
-        t = self.text
-        if isinstance(t, str):
-            return t.splitlines(True)
-        return t.splitlines(True)
-
-    def __iter__(self):
-        return iter(self.lines())
-
-    def close(self):
-        pass
-
-    def __enter__(self):
-        return self
-
-    def __exit__(self, *a):
-        return False
+def TextReadFile(path, newline=None):
+    e = _FS.get(path)
+    if e is None:
+        raise FileNotFoundError("[Errno 2] No such file or directory: '%s'" % path)
+    if e.kind != 'text':
+        raise Inconclusive('text read of non-text file %s' % path)
+    return io.StringIO(e.text, newline=newline)
 
 
 def vopen(path, mode='r', **kw):
@@ -511,9 +467,9 @@ def vopen(path, mode='r', **kw):
     if mode in ('r+b', 'rb+'):
         return NpyRawFile(p)
     if mode in ('w', 'w+', 'a'):
-        return TextWriteFile(p, mode)
+        return TextWriteFile(p, mode, newline=kw.get('newline'))
     if mode in ('r', 'rt'):
-        return TextReadFile(p)
+        return TextReadFile(p, newline=kw.get('newline'))
     if mode == 'rb':
         e = _FS.get(p)
         if e is None:
@@ -605,18 +561,3 @@ class MtscompReaderStub(object):
         return snp.zeros((0, self.n_channels), self.dtype)
 
 
-# ------------------------------------------------------------------------------------------
-# csv (filled in by symx.symtext when text files with symbolic cells are needed)
-# ------------------------------------------------------------------------------------------
-
-def _csv_module():
-    from . import symtext
-    return symtext.fake_csv
-
-
-class _LazyCsv(types.ModuleType):
-    def __getattr__(self, n):
-        return getattr(_csv_module(), n)
-
-
-fake_csv = _LazyCsv('csv')
